@@ -43,6 +43,9 @@ func runWorld(t *testing.T, o *sim.Outcome, p *GPlan, fr *fresh, exec string, ex
 			// OverlapAt, run 1 is served completely in a sibling world (own forwarded agent, own connection, same
 			// configuration object, same key directory, same process), then run 0 goes on
 			wB := &world{plan: p, dir: dir, oldSig: map[string][]byte{}, conf: w.conf, confErr: w.confErr}
+			if p.OverlapBNoKey {
+				wB.withoutKeyOf = p.Runs[1].LogName
+			}
 			wB.setupAgent()
 			gate := make(chan struct{})
 			reachedCh := make(chan struct{})
@@ -158,7 +161,7 @@ func execG(twice bool) func(t *testing.T, raw json.RawMessage) *sim.Outcome {
 
 // ---- C04: single-fault enumeration ----------------------------------------
 
-var enumAgentFaults = refagent.AllFaults
+var enumAgentFaults = append(append([]string(nil), refagent.AllFaults...), refagent.FaultFailSame)
 
 func execEnum(t *testing.T, p *GPlan) *sim.Outcome {
 	o := &sim.Outcome{}
